@@ -231,6 +231,10 @@ func (a *attributeQuery) Select(t iterator) NodeNavigator {
 			if node == nil {
 				return nil
 			}
+			if node.NodeType() == AttributeNode {
+				// The attribute axis is empty unless the context node is an element.
+				continue
+			}
 			node = node.Copy()
 			a.iterator = func() NodeNavigator {
 				for {
